@@ -9,6 +9,7 @@
 
 WORLDS = {
     "exec": {},
+    "mod": {},
     "svc": {"l2": ["services/basic_service.go", "services/manager.go", "services/failure_watcher.go"]},
 }
 
@@ -51,6 +52,17 @@ PROPS["C17"] = {
     "level_text": "seeded exploration of client/callback/lock-acquisition interleavings of the real service and manager code against a reference state machine (edges, function order, waiters, listener sequences, manager health) checked at every quiescent point; sampling, not proof",
     "level_note": "trusted: simulator engine, reference state machine written from the statement, the syntactic lock-point rewriter (tools/vtool)",
     "design_ref": "DESIGN.md section 5 C17",
+}
+
+PROPS["C18"] = {
+    "world": "mod", "level": "exploration", "quick_s": 15, "thorough_s": 420,
+    "rule": "one evaluation = one module graph (1..12 modules, random edge attempts incl. cycle-closing and self edges, modules with/without services, random target set) initialised with the real modules.Manager and then run: wrappers started in scheduler-chosen order, inner-service functions with scheduler-chosen latency and outcome, stop requests at any time; non-trivial = a diamond / shared dependency together with a failure or a stop during start-up, or a rejected cycle; distinct = distinct released-task/action sequence hash among non-trivial runs",
+    "real": ["modules.Manager (RegisterModule, AddDependency, InitModuleServices, DependenciesForModule)", "modules.NewModuleService wrapper", "services.BasicService (wrappers and inner services)"],
+    "stub": ["module init functions", "inner services' starting/running/stopping functions (parked tasks)", "operator (start order, stop requests)"],
+    "assumptions": _ASSUME_COMMON + ["Go map iteration order inside modules (orderedDeps, wrapper dependency maps) is not controlled; oracles do not depend on it", "'stopped only after dependants' is checked for stops requested through the wrapper, not for an inner service whose running function returned by itself"],
+    "level_text": "seeded exploration of dependency graphs, target sets, start orders, latencies, failures and stop times of the real module manager and wrappers against the DAG order model; sampling, not proof",
+    "level_note": "trusted: simulator engine, DAG reachability model written from the statement",
+    "design_ref": "DESIGN.md section 5 C18",
 }
 
 HOOK_COMMITS = []
